@@ -4,6 +4,7 @@ import (
 	"encoding/json"
 	"fmt"
 	"math/rand/v2"
+	"regexp"
 	"sort"
 	"strings"
 
@@ -157,11 +158,11 @@ func chunkOracle(prop string, res *RunResult) []Violation {
 		return nil
 	}
 	type ans struct {
-		err    string
+		err     string
 		errText string
-		recs   []string
-		groups map[string]map[string]float64
-		isAgg  bool
+		recs    []string
+		groups  map[string]map[string]float64
+		isAgg   bool
 	}
 	var texts []string
 	var ordered []bool
@@ -221,6 +222,10 @@ func chunkOracle(prop string, res *RunResult) []Violation {
 		}
 		ref := row[0]
 		cls := chainClass(texts[qi])
+		rowSuffix := preRenameFieldsSuffix(texts[qi])
+		if rowSuffix == "" {
+			rowSuffix = secondPassSuffix(texts[qi])
+		}
 		for w := 1; w < len(row); w++ {
 			a := row[w]
 			desc := fmt.Sprintf("world 0 (%s) vs world %d (%s)", describeWorld(worlds[0]), w, describeWorld(worlds[w]))
@@ -263,7 +268,7 @@ func chunkOracle(prop string, res *RunResult) []Violation {
 				sort.Strings(y)
 			}
 			if len(x) != len(y) {
-				vs = append(vs, Violation{Sig: prop + ":" + cls + ":row-count-differs", Msg: fmt.Sprintf("%q: %s: %d vs %d rows", texts[qi], desc, len(x), len(y))})
+				vs = append(vs, Violation{Sig: prop + ":" + cls + ":row-count-differs" + rowSuffix, Msg: fmt.Sprintf("%q: %s: %d vs %d rows", texts[qi], desc, len(x), len(y))})
 				continue
 			}
 			for i := range x {
@@ -275,13 +280,67 @@ func chunkOracle(prop string, res *RunResult) []Violation {
 					if strings.Join(sx, "|") == strings.Join(sy, "|") {
 						kind = "row-order-differs"
 					}
-					vs = append(vs, Violation{Sig: prop + ":" + cls + ":" + kind, Msg: fmt.Sprintf("%q: %s: row %d: %s vs %s", texts[qi], desc, i, trimTo(x[i], 200), trimTo(y[i], 200))})
+					vs = append(vs, Violation{Sig: prop + ":" + cls + ":" + kind + rowSuffix, Msg: fmt.Sprintf("%q: %s: row %d: %s vs %s", texts[qi], desc, i, trimTo(x[i], 200), trimTo(y[i], 200))})
 					break
 				}
 			}
 		}
 	}
 	return dedupV(vs)
+}
+
+// secondPassSuffix marks chains in which a command that needs a second pass over its input (`fillnull` without a
+// field list: it must see every column first) follows a command that limits or orders the stream (head, tail,
+// sort, dedup): the recorded finding of that shape (the re-run of the limiting command loses rows).
+func secondPassSuffix(text string) string {
+	limiting := false
+	for _, part := range strings.Split(text, "|")[1:] {
+		f := strings.Fields(strings.TrimSpace(part))
+		if len(f) == 0 {
+			continue
+		}
+		switch f[0] {
+		case "head", "tail", "sort", "dedup":
+			limiting = true
+		case "fillnull":
+			allFields := true
+			for _, a := range f[1:] {
+				if !strings.Contains(a, "=") {
+					allFields = false // a field list
+				}
+			}
+			if allFields && limiting {
+				return ":second-pass-after-limiting-command"
+			}
+		}
+	}
+	return ""
+}
+
+var preRenameRe = regexp.MustCompile(`rename (\w+) AS \w+`)
+
+// preRenameFieldsSuffix marks chains in which a `fields` include list names a column by the name it had before an
+// earlier `rename` (`rename code AS status | fields vid, level, code`): the recorded finding of that shape.
+func preRenameFieldsSuffix(text string) string {
+	parts := strings.Split(text, "|")
+	for i, part := range parts {
+		m := preRenameRe.FindStringSubmatch(part)
+		if m == nil {
+			continue
+		}
+		for _, later := range parts[i+1:] {
+			f := strings.Fields(strings.TrimSpace(later))
+			if len(f) < 2 || f[0] != "fields" || f[1] == "-" {
+				continue
+			}
+			for _, name := range strings.FieldsFunc(strings.Join(f[1:], " "), func(r rune) bool { return r == ',' || r == ' ' }) {
+				if name == m[1] {
+					return ":fields-lists-pre-rename-name"
+				}
+			}
+		}
+	}
+	return ""
 }
 
 // chainClass names the commands of a chain (sorted, unique) so that findings are per command mix.
@@ -306,7 +365,7 @@ func init() {
 	register(&Check{
 		ID:    "C06",
 		Level: "exploration",
-		Rule: "each case is a world set: one dataset with unique timestamps and 6-13 random command chains (1-4 commands from where, eval, fields, rename, fillnull, rex, regex, dedup, head, tail, sort, top/rare, bin, streamstats, makemv+mvexpand, stats) answered in 4 worlds that differ only in what changes the stream's chunking and merging: one block vs many blocks vs several segments, GOMAXPROCS 1/2/4/16 (number of parallel chains) and the seeded interleaving of the chain goroutines. Answers (row sequences where the order is defined, row multisets or group maps otherwise) must be equal across worlds. distinct = distinct world-set descriptions + chain texts; non-trivial = the worlds differ in block count or parallelism",
+		Rule:  "each case is a world set: one dataset with unique timestamps and 6-13 random command chains (1-4 commands from where, eval, fields, rename, fillnull, rex, regex, dedup, head, tail, sort, top/rare, bin, streamstats, makemv+mvexpand, stats) answered in 4 worlds that differ only in what changes the stream's chunking and merging: one block vs many blocks vs several segments, GOMAXPROCS 1/2/4/16 (number of parallel chains) and the seeded interleaving of the chain goroutines. Answers (row sequences where the order is defined, row multisets or group maps otherwise) must be equal across worlds. distinct = distinct world-set descriptions + chain texts; non-trivial = the worlds differ in block count or parallelism",
 		Exec:  runWorlds,
 		Run: func(c *Ctx) {
 			n := 50
